@@ -162,7 +162,7 @@ func genC11(driver string, col *ev.Collector) func(*rapid.T) c11Case {
 			cfg.MavenFlavours = 50
 		}
 		c := c11Case{Driver: driver}
-		if driver == drvNpmRelax && pct(t, "chain?") < 15 {
+		if driver == drvNpmRelax && pct(t, "chain?") < 20 {
 			// version chains of one or two direct dependencies: each relaxation trades the
 			// advisories of one version for those of the next, so follow-up attempts come several
 			// at a time and one advisory set is reached by more than one route
@@ -744,7 +744,7 @@ func runC11(t *testing.T, driver string) {
 		t.Skipf("replay file is for leg %s", leg)
 	}
 	col := ev.Get("C11")
-	ev.Check(t, col, ev.Scale(400, 3000), genC11(driver, col), propC11)
+	ev.Check(t, col, ev.Scale(600, 3000), genC11(driver, col), propC11)
 }
 
 func TestC11_npm_relax(t *testing.T)      { runC11(t, drvNpmRelax) }
